@@ -583,6 +583,7 @@ Error BaseBuilder::run_passes() {
   }
 
   ErrorHandler* prev = error_handler();
+  bool prev_is_own = has_own_error_handler();
   PostponedErrorHandler postponed;
 
   Error err = Error::kOk;
@@ -596,7 +597,12 @@ Error BaseBuilder::run_passes() {
     }
   }
   _pass_arena.reset();
-  set_error_handler(prev);
+
+  // Restore the previous handler - a handler inherited from CodeHolder must not become the emitter's own handler.
+  _error_handler = prev;
+  if (!prev_is_own) {
+    _clear_emitter_flags(EmitterFlags::kOwnErrorHandler);
+  }
 
   if (ASMJIT_UNLIKELY(err != Error::kOk)) {
     return report_error(err, !postponed._message.is_empty() ? postponed._message.data() : nullptr);
